@@ -552,7 +552,10 @@ func mutList(rng *rand.Rand, items, donor [][]byte) ([][]byte, string) {
 func (e *engine) mutUncles(rng *rand.Rand, raw []byte) ([]byte, string) {
 	var us []*types.Header
 	_ = rlp.DecodeBytes(raw, &us)
-	switch v := rng.Intn(4); {
+	switch v := rng.Intn(6); {
+	case v >= 4:
+		// bytes that are no RLP list at all: the decoder's error must not get lost on the way (a later field decoding fine)
+		return [][]byte{{0xc1}, {0xc0, 0x00}, {0x80}, {}, {0xf8}}[rng.Intn(5)], "badrlp"
 	case len(us) == 0 || v == 0:
 		us = append(us, synthHeader(rng, 1_000_000+uint64(rng.Intn(1000))))
 		out, _ := rlp.EncodeToBytes(us)
@@ -1028,6 +1031,27 @@ func (e *engine) crossField(layers map[string]bool) {
 	run(x7, 1, legacy.body, "tx-stateroot")
 }
 
+// lostErrors: a body of every block with EVERY OTHER field genuine and the uncles field no RLP list at all (and, for blocks
+// with withdrawals, one withdrawal no RLP): a decoder whose pending error is overwritten by a later field that decodes fine
+// accepts such a body - the undecodable uncles read as "no uncles", which is what every post-merge header says.
+func (e *engine) lostErrors(layers map[string]bool) {
+	for _, b := range e.all {
+		if !b.complete {
+			continue
+		}
+		for i, bad := range [][]byte{{0xc1}, {0xc0, 0x00}, {0x80}, {}, {0xf8}} {
+			p := bodyParts{txs: b.parts.txs, uncles: bad, wds: b.parts.wds}
+			e.run(&concrete{idx: -1, variant: fmt.Sprintf("lost:un-badrlp%d", i), blocks: b.name, key: keyOf(1, b.hash[:]), content: encBody(p), mode: "honest", era: b.era}, layers)
+		}
+		if len(b.parts.wds) > 1 {
+			wds := append([][]byte{}, b.parts.wds...)
+			wds[0] = []byte{0xc1}
+			p := bodyParts{txs: b.parts.txs, uncles: b.parts.uncles, wds: wds}
+			e.run(&concrete{idx: -1, variant: "lost:wd0-badrlp", blocks: b.name, key: keyOf(1, b.hash[:]), content: encBody(p), mode: "honest", era: b.era}, layers)
+		}
+	}
+}
+
 // collisions: lists whose root shares the first / last two bytes with the key header's root (found by search): a
 // validator that compares a prefix or suffix of a root instead of all 32 bytes accepts them.
 func (e *engine) collisions(layers map[string]bool) {
@@ -1169,6 +1193,7 @@ func Main(args []string) error {
 	if *mut > 0 {
 		e.byteMutations(*mut, layers)
 		e.crossField(layers)
+		e.lostErrors(layers)
 	}
 	if *collide {
 		e.collisions(layers)
